@@ -405,7 +405,9 @@ func checkC05(c *core.Check) {
 	c.AddTLC(jr.TLC)
 	c.Drift("Params (generated parse order: which of several failing parameters is named)", jr.Drifts)
 	c.Add("traces_validated_against_impl", int64(judged))
-	c.Add("evaluations", int64(run.requests))
+	// (Parse() is called twice per dispatched request and both outcomes are judged: an evaluation is one judged outcome)
+	c.Add("evaluations", int64(judged))
+	c.Cov["requests"] = run.requests
 	c.Add("programs", int64(run.programs))
 	c.Add("distinct_nontrivial", int64(jr.Nontriv))
 	c.Cov["not_dispatched_not_judged"] = notDispatched
